@@ -121,7 +121,7 @@ func (f *serveFamily) serves(prop string) bool {
 
 var serveFamilies = []*serveFamily{
 	{name: "errors", rules: []string{"C01|R2a", "C01|R2b"}, mask: evReadLoopPending | evErrResp, readers: true},
-	{name: "body", rules: []string{"C02|R1a", "C02|R1b", "C02|R2"}, mask: evMayCont | evContRead | evRespClose | evHandler | evStreamChecked | evWrote},
+	{name: "body", rules: []string{"C02|R1a", "C02|R1b", "C02|R2"}, mask: evMayCont | evContRead | evRespClose | evHandler | evStreamChecked | evWrote | evCtxSwapped | evTAStale0 | evTAStale0<<1 | evTAStale0<<2 | evTAStale0<<3},
 	{name: "close", rules: []string{"C10|R2a", "C10|R2b", "C10|R2c"}, mask: evRespClose | evNotHTTP11 | evKeepAliveHdr},
 	{name: "carried", rules: []string{"C11|R-loop", "C11|R-reset"}, mask: evHandler | evReqReset | evRespReset, carried: true},
 	{name: "connstate", rules: []string{"C14|R1", "C14|R2"}, mask: evByteOK | evHandler, state: true},
@@ -244,6 +244,28 @@ func (p *Prog) serveLoop(prop string) *serveResult {
 		}
 	})
 
+	// type assertions to *requestStream inside the loop (the ways the code finds out whether the body is streamed)
+	var streamTAs []*ssa.TypeAssert
+	for _, b := range fn.Blocks {
+		if !inL[b] {
+			continue
+		}
+		for _, in := range b.Instrs {
+			if ta, ok := in.(*ssa.TypeAssert); ok && strings.HasSuffix(ta.AssertedType.String(), "requestStream") {
+				streamTAs = append(streamTAs, ta)
+			}
+		}
+	}
+	res.counts["C02.R2 request-stream type assertions in the loop"] = len(streamTAs)
+	taBit := func(ta *ssa.TypeAssert) uint64 {
+		for i, t := range streamTAs {
+			if t == ta && i < 4 {
+				return evTAStale0 << uint(i)
+			}
+		}
+		return 0
+	}
+
 	// the close decision: condition guarding the server's SetConnectionClose on the response
 	var closeCond ssa.Value
 	var closeCall *ssa.Call
@@ -346,7 +368,7 @@ func (p *Prog) serveLoop(prop string) *serveResult {
 		v.n++
 	}
 
-	iterBits := evMayCont | evContRead | evHandler | evRespClose | evWrote | evFlushedAfterWrite | evStreamChecked | evErrResp |
+	iterBits := evCtxSwapped | evTAStale0 | evTAStale0<<1 | evTAStale0<<2 | evTAStale0<<3 | evMayCont | evContRead | evHandler | evRespClose | evWrote | evFlushedAfterWrite | evStreamChecked | evErrResp |
 		evStopChecked | evTimeoutT | evFreshCtx | evCopied | evNotHTTP11 | evKeepAliveHdr | evByteOK | evReadLoopPending | evIdleMarked |
 		evReqReset | evRespReset | evHeadSkip | evHeadTested | evIsHead
 	for i := range readerCalls {
@@ -386,7 +408,19 @@ func (p *Prog) serveLoop(prop string) *serveResult {
 					}
 				}
 			}
+			if ta, ok := in.(*ssa.TypeAssert); ok {
+				if bit := taBit(ta); bit != 0 {
+					if st.Has(evCtxSwapped) {
+						setb(st, bit)
+					} else {
+						st.Clear(bit)
+					}
+				}
+			}
 			if isCtxStore(in) && inL[b] {
+				if st.Has(evHandler) {
+					setb(st, evCtxSwapped)
+				}
 				// the context object was exchanged: headers set on the old one are gone
 				st.Clear(evRespClose | evKeepAliveHdr | evHeadSkip)
 				if sv := in.(*ssa.Store).Val; sv == lastAcquire || isCallResultOf(sv, fAcquireCtx) {
@@ -568,7 +602,14 @@ func (p *Prog) serveLoop(prop string) *serveResult {
 						setb(st, evMayCont)
 					}
 				case isCallTo(c, fFullyRead):
-					if tk {
+					// fullyRead() on a stream obtained from the swapped-in ctx says nothing about the served request
+					stale := false
+					if ex, ok := c.Call.Args[0].(*ssa.Extract); ok {
+						if ta, ok := ex.Tuple.(*ssa.TypeAssert); ok && st.Has(taBit(ta)) {
+							stale = true
+						}
+					}
+					if tk && !stale {
 						setb(st, evStreamChecked)
 					}
 				case isCallTo(c, fIsHead):
@@ -584,10 +625,11 @@ func (p *Prog) serveLoop(prop string) *serveResult {
 					}
 				}
 			}
-			// "_, ok := bodyStream.(*requestStream)": false edge after the handler = nothing to check
+			// "_, ok := bodyStream.(*requestStream)" false: the served request has no connection-backed
+			// stream, provided the assertion looked at the request that was served (not at a ctx swapped in later)
 			if ex, ok := v.(*ssa.Extract); ok && ex.Index == 1 {
-				if ta, ok := ex.Tuple.(*ssa.TypeAssert); ok && strings.HasSuffix(ta.AssertedType.String(), "requestStream") {
-					if !tk && st.Has(evHandler) && !st.Has(evWrote) {
+				if ta, ok := ex.Tuple.(*ssa.TypeAssert); ok {
+					if bit := taBit(ta); bit != 0 && !tk && !st.Has(bit) && !st.Has(evWrote) {
 						setb(st, evStreamChecked)
 					}
 				}
@@ -940,7 +982,11 @@ var (
 	hijackNoRespPolarity bool
 )
 
-const evHijackNoResp uint64 = 1 << 39
+const (
+	evHijackNoResp uint64 = 1 << 39
+	evCtxSwapped   uint64 = 1 << 37 // the ctx variable was re-assigned after the handler ran (timeout hand-off)
+	evTAStale0     uint64 = 1 << 32 // 4 bits: type assertion i to *requestStream was made on the swapped ctx
+)
 
 func typeIsNetConn(t types.Type) bool {
 	return strings.HasSuffix(t.String(), "net.Conn")
